@@ -25,8 +25,15 @@ def header_value(rng):
     w = [rng.choice(words) for _ in range(n)]
     # a value is single-line, trimmed, and must not contain the comment terminator
     v = ' '.join(w).replace('*/', '* /')
-    if rng.random() < 0.1:
+    r = rng.random()
+    if r < 0.1:
         v = v.replace(' ', '  ', 1)
+    elif r < 0.16:
+        v = v.replace(' ', '\t', 1)            # a tab inside the value
+    elif r < 0.22:
+        v = v.replace(' ', '\u00a0', 1)        # a no-break space
+    elif r < 0.26:
+        v = v.replace(' ', '   ', 1) + '  x'    # runs of blanks
     return v.strip() or 'v'
 
 
